@@ -1604,6 +1604,15 @@ where
                         // Clear the buffer
                         self.buffer.clear();
 
+                        // Outside of COPY the server ignores CopyDone and CopyFail and sends
+                        // nothing back: waiting for a reply would pin the server forever.
+                        if !server.in_copy_mode() {
+                            if !server.in_transaction() && self.transaction_mode {
+                                break;
+                            }
+                            continue;
+                        }
+
                         let response = self
                             .receive_server_message(server, &address, &pool, &self.stats.clone())
                             .await?;
